@@ -185,6 +185,12 @@ FIXED = [
      "(((fn F ((PA 5) (QB 0)) ((print PA) (print QB) (ret (b 3 PA QB))))) ((call F ()) (call F (1)) (print (call F (1 2))) (print (call F ()))))"),
     ("FUNCTION G(PA=3, QB, RC=7, KA){ RETURN(((PA*1000)+(QB*100))+((RC*10)+KA)) } PRINT(G()) PRINT(G(1)) PRINT(G(1,2)) PRINT(G(1,2,3)) PRINT(G(1,2,3,4))",
      "(((fn G ((PA 3) (QB 0) (RC 7) (KA 0)) ((ret (b 3 (b 3 (b 0 PA 1000) (b 0 QB 100)) (b 3 (b 0 RC 10) KA)))))) ((print (call G ())) (print (call G (1))) (print (call G (1 2))) (print (call G (1 2 3))) (print (call G (1 2 3 4)))))"),
+    # an argument left empty in the middle or at the front keeps its position, in a call written inside an expression as in a statement
+    # (the empty slot is the absent value: written `ZZNONE`, a name that is never defined, for the reference interpreter)
+    ("FUNCTION F(PA=1,QB=2,RC=3){ RETURN(((PA*100)+(QB*10))+RC) } PRINT(F(7,,9)) PRINT(F(,5)) PRINT(F(,,4)) INT X=F(,8,)+1 PRINT(X)",
+     "(((fn F ((PA 1) (QB 2) (RC 3)) ((ret (b 3 (b 3 (b 0 PA 100) (b 0 QB 10)) RC))))) ((print (call F (7 ZZNONE 9))) (print (call F (ZZNONE 5))) (print (call F (ZZNONE ZZNONE 4))) (decl X (b 3 (call F (ZZNONE 8)) 1)) (print X)))"),
+    ("FUNCTION G(PA=1,QB=2,RC=3){ PRINT(((PA*100)+(QB*10))+RC) } G(7,,9) G(,5) INT Y=G(6,,)",
+     "(((fn G ((PA 1) (QB 2) (RC 3)) ((print (b 3 (b 3 (b 0 PA 100) (b 0 QB 10)) RC))))) ((call G (7 ZZNONE 9)) (call G (ZZNONE 5)) (decl Y (call G (6)))))"),
     # a loop condition is any value: it holds while the value is not 0, negative numbers included (as for IF)
     ("INT N=0-3 WHILE(N){ PRINT(N) n60 N++ } PRINT(N)", "(() ((decl N (b 4 0 3)) (while N ((print N) (note 60) (inc N 1))) (print N)))"),
     ("FOR(INT I=0-2; I; I++){ PRINT(I) n61 } PRINT(I)", "(() ((for I (b 4 0 2) I (inc I 1) ((print I) (note 61))) (print I)))"),
